@@ -11,15 +11,49 @@ var _ Pass = (*RenameObject)(nil)
 type RenameObject struct {
 	From ObjectReference
 	To   string
+
+	// names (as spelled in the schema) of the objects being renamed
+	renamed map[string]struct{}
 }
 
 func (pass *RenameObject) Process(schemas []*ast.Schema) ([]*ast.Schema, error) {
-	visitor := &Visitor{
-		OnObject: pass.processObject,
-		OnRef:    pass.processRef,
+	pass.renamed = make(map[string]struct{})
+	for _, schema := range schemas {
+		schema.Objects.Iterate(func(_ string, object ast.Object) {
+			if pass.From.Matches(object) {
+				pass.renamed[object.Name] = struct{}{}
+			}
+		})
 	}
 
-	return visitor.VisitSchemas(schemas)
+	if len(pass.renamed) == 0 {
+		return schemas, nil
+	}
+
+	visitor := &Visitor{
+		OnObject:      pass.processObject,
+		OnRef:         pass.processRef,
+		OnConstantRef: pass.processConstantRef,
+		OnDisjunction: pass.processDisjunction,
+	}
+
+	schemas, err := visitor.VisitSchemas(schemas)
+	if err != nil {
+		return nil, err
+	}
+
+	for _, schema := range schemas {
+		if schema.Package == pass.From.Package && pass.isRenamed(schema.EntryPoint) {
+			schema.EntryPoint = pass.To
+		}
+	}
+
+	return schemas, nil
+}
+
+func (pass *RenameObject) isRenamed(name string) bool {
+	_, found := pass.renamed[name]
+	return found
 }
 
 func (pass *RenameObject) processObject(visitor *Visitor, schema *ast.Schema, object ast.Object) (ast.Object, error) {
@@ -41,8 +75,46 @@ func (pass *RenameObject) processObject(visitor *Visitor, schema *ast.Schema, ob
 }
 
 func (pass *RenameObject) processRef(_ *Visitor, _ *ast.Schema, def ast.Type) (ast.Type, error) {
-	if def.Ref.ReferredPkg == pass.From.Package && def.Ref.ReferredType == pass.From.Object {
+	if def.Ref.ReferredPkg == pass.From.Package && pass.isRenamed(def.Ref.ReferredType) {
 		def.Ref.ReferredType = pass.To
+	}
+
+	return def, nil
+}
+
+func (pass *RenameObject) processConstantRef(_ *Visitor, _ *ast.Schema, def ast.Type) (ast.Type, error) {
+	if def.ConstantReference.ReferredPkg == pass.From.Package && pass.isRenamed(def.ConstantReference.ReferredType) {
+		def.ConstantReference.ReferredType = pass.To
+	}
+
+	return def, nil
+}
+
+func (pass *RenameObject) processDisjunction(visitor *Visitor, schema *ast.Schema, def ast.Type) (ast.Type, error) {
+	var err error
+
+	// discriminator mappings name their targets without a package: only
+	// rewrite them when the disjunction can refer to the renamed object.
+	concerned := schema.Package == pass.From.Package
+	for _, branch := range def.Disjunction.Branches {
+		if branch.IsRef() && branch.Ref.ReferredPkg == pass.From.Package {
+			concerned = true
+		}
+	}
+
+	if concerned {
+		for discriminator, typeName := range def.Disjunction.DiscriminatorMapping {
+			if pass.isRenamed(typeName) {
+				def.Disjunction.DiscriminatorMapping[discriminator] = pass.To
+			}
+		}
+	}
+
+	for i, branch := range def.Disjunction.Branches {
+		def.Disjunction.Branches[i], err = visitor.VisitType(schema, branch)
+		if err != nil {
+			return ast.Type{}, err
+		}
 	}
 
 	return def, nil
